@@ -102,7 +102,11 @@ func c10Template(c c10Case, image string) corev1.PodTemplateSpec {
 		t.Spec.NodeSelector = map[string]string{"k": "a"}
 	}
 	if c.Toleration {
-		t.Spec.Tolerations = []corev1.Toleration{{Key: "dedicated", Operator: corev1.TolerationOpExists}}
+		// ... and a narrower toleration on one of the standard keys (what the DefaultTolerationSeconds admission plugin writes
+		// into running pods): the unlimited default must still be there
+		secs := int64(300)
+		t.Spec.Tolerations = []corev1.Toleration{{Key: "dedicated", Operator: corev1.TolerationOpExists},
+			{Key: "node.kubernetes.io/not-ready", Operator: corev1.TolerationOpExists, Effect: corev1.TaintEffectNoExecute, TolerationSeconds: &secs}}
 	}
 	return t
 }
